@@ -103,6 +103,12 @@ func CheckC06(run *Run) {
 			reqs = append(reqs, r)
 		}
 	}
+	// annotated constructs in every context, and shapes added by later rounds (nullable enum, empty_behavior on Timestamp)
+	for _, r := range CodecCatalogue() {
+		if hasTag(r, "contexts") || r.ID == "cxnullenum" || r.ID == "cxemptyts" {
+			reqs = append(reqs, r)
+		}
+	}
 	rng := rand.New(rand.NewSource(run.Seed + 606))
 	perRPC := 3
 	if run.Tier == "thorough" {
